@@ -73,24 +73,24 @@ class Mod:
 def entity_source(kind, t, rng):
     """(exported name, source) of an entity of the given kind in the module tagged `t`."""
     if kind == "plain":
-        return f"pl_{t}", f"def pl_{t}(u):\n    u.pl_{t}_g\n    u.pl_{t}_s = 1\n    return u\n"
+        return f"pl_{t}", f"def pl_{t}(u):\n    u.pl_{t}_g\n    u.pl_{t}_s = 1\n    u.val\n    u.out = 2\n    return u\n"
     if kind == "ign":
         return f"ig_{t}", f"@rattr_ignore\ndef ig_{t}(u):\n    return u.ig_{t}_g\n"
     if kind == "excl":
         return f"excl_{t}", f"def excl_{t}(u):\n    return u.excl_{t}_g\n"
     if kind == "ann":
-        return f"ann_{t}", (f"@rattr_results(gets={{\"u.ann_{t}_g\"}}, sets={{\"u.ann_{t}_s\"}})\n"
+        return f"ann_{t}", (f"@rattr_results(gets={{\"u.ann_{t}_g\", \"u.val\"}}, sets={{\"u.ann_{t}_s\"}})\n"
                             f"def ann_{t}(u):\n    pass\n")
     if kind == "cls":
-        return f"K_{t}", f"class K_{t}:\n    def __init__(self, u):\n        self.k_{t} = u.K_{t}_g\n"
+        return f"K_{t}", f"class K_{t}:\n    def __init__(self, u):\n        self.k_{t} = u.K_{t}_g\n        self.val = u.val\n"
     if kind == "clsn":
         return f"KN_{t}", f"class KN_{t}:\n    kn_{t} = 1\n"
     if kind == "clsi":
         return f"KI_{t}", f"@rattr_ignore\nclass KI_{t}:\n    def __init__(self, u):\n        self.ki_{t} = u.KI_{t}_g\n"
     if kind == "static":
-        return f"H_{t}", f"class H_{t}:\n    @staticmethod\n    def sm(u):\n        return u.H_{t}_g\n"
+        return f"H_{t}", f"class H_{t}:\n    @staticmethod\n    def sm(u):\n        del u.gone\n        return u.H_{t}_g + u.val\n"
     if kind == "lam":
-        return f"lam_{t}", f"lam_{t} = lambda u: u.lam_{t}_g\n"
+        return f"lam_{t}", f"lam_{t} = lambda u: u.lam_{t}_g + u.val\n"
     if kind == "var":
         return f"VAR_{t}", f"VAR_{t} = 3\n"
     raise AssertionError(kind)
@@ -267,7 +267,7 @@ class ProjGen:
         if kind == "local-nested":
             return f"inner_{t}({a})"       # a name nobody defines at module level
         if f"def loc_{t}" not in "".join(X.defs):
-            X.defs.append(f"def loc_{t}(u):\n    u.loc_{t}_g\n    del u.loc_{t}_d\n")
+            X.defs.append(f"def loc_{t}(u):\n    u.loc_{t}_g\n    del u.loc_{t}_d\n    del u.gone\n    u.out = u.val\n")
         return f"loc_{t}({a})"
 
     def add_caller(self, X, loc, name, cells, extra=()):
@@ -380,6 +380,16 @@ CURATED = [
     ("import-chain-mutates-import-ir", {
         "helpers.py": "def plain(thing):\n    return thing.x\n\n\ndef chain(thing):\n    thing.c\n    return plain(thing.sub)\n",
         "target.py": "from helpers import chain\n\n\ndef f(b):\n    return chain(b)\n"}),
+    ("twin-accesses-in-two-imports", {
+        "north.py": "def read_north(sensor):\n    return sensor.value\n",
+        "south.py": "# the southern station\n\n\ndef read_south(sensor):\n    del sensor.stale\n    return sensor.value\n",
+        "target.py": "from north import read_north\nfrom south import read_south\n\n\ndef north_value(probe):\n"
+                     "    return read_north(probe)\n\n\ndef south_value(probe):\n    return read_south(probe)\n"}),
+    ("twin-accesses-in-one-import-and-in-the-target", {
+        "lib.py": "def first(sensor):\n    sensor.value = 1\n    return sensor.value\n\n\ndef second(sensor):\n"
+                  "    sensor.value = 2\n    return sensor.value\n\n\ndef inner(sensor):\n    return second(sensor)\n",
+        "target.py": "import lib\n\n\ndef own(sensor):\n    return sensor.value\n\n\ndef a(probe):\n    return lib.first(probe)\n\n\n"
+                     "def b(probe):\n    return lib.inner(probe)\n\n\ndef c(probe):\n    return own(probe)\n"}),
     ("excluded-and-undefined", {
         "helpers.py": "def excl_it(t):\n    return t.e\n\n\nVAR = 3\n",
         "target.py": "from helpers import excl_it, VAR, nothing\nimport helpers\n\n\ndef f(b):\n    excl_it(b)\n    VAR(b)\n"
@@ -398,6 +408,17 @@ def write_project(d: Path, files):
 
 def names_of(s):
     return sorted([n.name, n.basename] for n in s)
+
+
+def located_names_of(s):
+    """[name, basename, file, lineno, col_offset] of every member of a gets/sets/dels set (the location is NOT part of
+    a Name's equality: which of two equal members a set holds shows only here)."""
+    out = []
+    for n in s:
+        loc = getattr(n, "location", None)
+        out.append([n.name, n.basename, str(getattr(loc, "defined_in", None)), getattr(loc, "lineno", None),
+                    getattr(loc, "col_offset", None)])
+    return sorted(out, key=lambda x: json.dumps(x))
 
 
 def iface_json(sym):
@@ -450,7 +471,8 @@ def deep_snapshot(file_ir, cids):
                           "kwargs": [[a, b] for a, b in c.args.kwargs.items()], "target": target_json(c.target)})
         fns.append({"kind": type(sym).__name__, "name": sym.name, "file": str(sym.location.defined_in),
                     "iface": iface_json(sym), "calls": calls, "extra_keys": sorted(set(ir) - {"gets", "sets", "dels", "calls"}),
-                    "gets": names_of(ir["gets"]), "sets": names_of(ir["sets"]), "dels": names_of(ir["dels"])})
+                    "gets": names_of(ir["gets"]), "sets": names_of(ir["sets"]), "dels": names_of(ir["dels"]),
+                    "locs": {k: located_names_of(ir[k]) for k in ("gets", "sets", "dels")}})
     syms = file_ir.context.symbol_table.symbols
     return {"fns": fns, "symbols": [[type(s).__name__, s.id] for s in syms],
             "ctx": [msym_json(s, file_ir) for s in syms if type(s).__name__ in ("Func", "Class", "Import")
@@ -581,9 +603,110 @@ def observe(proj_dir: Path, spec):
                 docs.append(doc())
             obs["snaps"], obs["docs"], obs["outs"] = snaps, docs, outs
             obs["target_order"] = [s.id for s in file_ir]
+            # ---- library use: MORE analyses in the same process, after the generations above. The Config is re-created
+            # as a fresh `entry_point()` would, NO cache is cleared. What such an analysis hands to result generation must
+            # be what a fresh analysis computes (props/c14hist.py).
+            over = dict(_follow_imports_level=spec["level"], _excluded_imports=list(spec["excluded_imports"]),
+                        _excluded_names=list(spec["excluded_names"]))
+            hist = {}
+
+            def analyse(target, keep_caches):
+                if keep_caches:
+                    fresh_config_keeping_caches(target=Path(target), **over)
+                else:
+                    impl.reset_config(target=Path(target), **over)
+                with impl.Tap():
+                    o = impl.outcome_of(F.parse_and_analyse_file)
+                if o[0] != "ok":
+                    return {"outcome": f"{o[0]}:{o[1]}"}, None
+                f2, i2, _ = o[1]
+                return {"outcome": "ok", "snap": snapshot_all(f2, i2, {})}, (f2, i2)
+
+            if spec.get("history", True):
+                hist["first"] = {"outcome": "ok", "snap": snaps[0]}
+                hist["again"], _ = analyse("target.py", True)
+                if (proj_dir / "target_b.py").exists():
+                    hist["b_after"], irs = analyse("target_b.py", True)
+                    hist["b_fresh"], _ = analyse("target_b.py", False)
+            obs["history"] = hist
     finally:
         sys.path[:] = saved_path
     return obs
+
+
+def fresh_config_keeping_caches(**over):
+    """What a second `entry_point()` in the same process amounts to: the Config singleton is dropped and re-created;
+    every functools cache (and any other module state) stays (impl.reset_config clears the caches)."""
+    from unittest import mock
+    from rattr.config import Config, State
+    from rattr.config._types import ConfigMetaclass
+    ConfigMetaclass._instance = None
+    try:
+        Config._instance = None
+    except Exception:  # noqa
+        pass
+    with mock.patch("rattr.config._types.validate_arguments", lambda a: a):
+        return Config(arguments=impl.default_arguments(**over), state=State())
+
+
+def snapshot_difference(fresh, got):
+    """What differs between two `snapshot_all` of the same target (call ids are per-snapshot: not compared)
+    -> sorted list of 'where:kind' (empty when equal)."""
+    out = set()
+    ma = [("target", fresh["target"])] + [tuple(x) for x in fresh["imports"]]
+    mb = [("target", got["target"])] + [tuple(x) for x in got["imports"]]
+    if [m for m, _ in ma] != [m for m, _ in mb]:
+        out.add("document:import-irs-key-list-differs")
+    for i, ((na, sa), (nb, sb)) in enumerate(zip(ma, mb)):
+        where = "target" if i == 0 else "import"
+        if na != nb:
+            continue
+        sta, stb = structure_of(sa), structure_of(sb)
+        for part, text in (("keys", "function-ir-key-list-differs"), ("symbols", "symbol-table-differs"), ("calls", "calls-differ"),
+                           ("extra_keys", "function-ir-dict-keys-differ")):
+            if part in ("calls", "extra_keys") and sta["keys"] != stb["keys"]:
+                continue
+            if sta[part] != stb[part]:
+                out.add(f"{where}:{text}")
+        if sa["ctx"] != sb["ctx"]:
+            out.add(f"{where}:context-differs")
+        if sta["keys"] == stb["keys"]:
+            for fa, fb in zip(sa["fns"], sb["fns"]):
+                for kind in ("gets", "sets", "dels"):
+                    xa, xb = {tuple(n) for n in fa[kind]}, {tuple(n) for n in fb[kind]}
+                    if xa != xb:
+                        out.add(f"{where}:" + ("names-added" if xa <= xb else "names-removed-or-changed:" + kind))
+                    elif fa["locs"][kind] != fb["locs"][kind]:
+                        out.add(f"{where}:locations-differ:" + kind)
+    return sorted(out)
+
+
+def judge_inprocess_history(res, case, obs):
+    from props import c14hist
+    h = obs.get("history")
+    if not h:
+        return
+    for key, ref, what in (("again", "first", "same-target-again"), ("b_after", "b_fresh", "another-target-analysed-before"),
+                           ):
+        if key not in h or ref not in h:
+            continue
+        a, b = h[key], h[ref]
+        hist_of = {"again": ["target.py", "target.py"], "b_after": ["target.py", "target.py", "target_b.py"]}[key]
+        if a["outcome"] != b["outcome"]:
+            res.count("multi:history:outcome-differs")
+            res.violations.append({"signature": f"history:in-process:outcome-differs-from-a-fresh-analysis:{what}", "case": case,
+                                   "history": hist_of, "in_history": a["outcome"], "fresh": b["outcome"]})
+            continue
+        if a["outcome"] != "ok":
+            res.count("multi:history:step-not-ok")
+            continue
+        d = snapshot_difference(b["snap"], a["snap"])
+        if d:
+            res.count("multi:history:ir-handed-to-generation-differs")
+            res.violations.append({"signature": f"history:ir-handed-to-generation-differs-from-a-fresh-analysis:{what}:" + "+".join(d),
+                                   "case": case, "history": hist_of, "style": "in-process"})
+        else:
+            res.count("multi:history:ir-handed-to-generation-equals-a-fresh-analysis:" + what)
 
 
 def cli_flags(spec):
@@ -794,6 +917,21 @@ def judge_project(res, case, spec, obs, mo):
         res.skipped_outside_fragment += 1
         model_ok = False
 
+    # the call graph over resolvable calls (the model's resolution AND the real one: the more permissive union), for the
+    # provenance oracle
+    offs = [sum(len(s["fns"]) for _, s in mods0[:mi]) for mi in range(len(mods0))]
+    edges = [set() for _, s in mods0 for _ in s["fns"]]
+    for mi, (_, s) in enumerate(mods0):
+        for fi, f in enumerate(s["fns"]):
+            for c, mr in zip(f["calls"], resolution_model[mi][fi]):
+                if isinstance(mr, int):
+                    edges[offs[mi] + fi].add(mr)
+    for r in obs["resolution"]:
+        a = r["answer"]
+        if isinstance(a, list) and a[0] < len(offs):
+            edges[offs[r["mod"]] + r["fn"]].add(offs[a[0]] + a[1])
+    obs["_edges"] = edges
+
     def has_resolvable(module, fn_name):
         for mi, (mn, s) in enumerate(mods0):
             if (module is None and mi == 0) or (module is not None and mi > 0 and mn == module):
@@ -880,6 +1018,22 @@ def judge_project(res, case, spec, obs, mo):
             if r == 1 and known:
                 continue        # the second generation adding names again is judged through the results below
             res.violations.append({"signature": sig, "case": case, "generation": r + 1, "where": where})
+    # ---- provenance: a name result generation folds into a function is located where a function it reaches wrote it
+    from props import c14prov
+    pre_flat, _ = c14prov.flat_of_snapshot(snap0)
+    for r in (0, 1):
+        post_flat, _ = c14prov.flat_of_snapshot(obs["snaps"][r + 1])
+        if [(f["kind"], f["name"]) for f in post_flat] != [(f["kind"], f["name"]) for f in pre_flat]:
+            break           # the key lists changed: reported above
+        pv = c14prov.provenance_violations(pre_flat, post_flat, edges)
+        if not pv:
+            res.count(f"multi:provenance-after-generation-{r + 1}:every-name-located-where-a-reachable-function-wrote-it")
+        for cls in sorted({v["class"] for v in pv}):
+            res.count(f"multi:provenance-after-generation-{r + 1}:{cls}")
+            res.violations.append({"signature": f"ir-mutated:other:folded-name-located-{cls}", "case": case,
+                                   "generation": r + 1, "names": [v for v in pv if v["class"] == cls][:6]})
+        if pv:
+            break
     if outs[0][0] == "ok" and outs[1][0] == "ok":
         if outs[0][1] != outs[1][1]:
             feats = rl.other_roots_features(flat_snapshot(snap0, resolution_model, sizes), {})
@@ -918,6 +1072,22 @@ def judge_cli(res, case, obs, cli):
         res.disagreements.append({"case": case, "what": "-o ir output is not JSON", "stdout": out[:300]})
         return
     before, mid = json.loads(obs["docs"][0]), json.loads(obs["docs"][1])
+    # provenance of what `-o ir` prints (locations are NOT stripped here)
+    if "_edges" in obs:
+        from props import c14prov
+        pre_flat, _ = c14prov.flat_of_snapshot(obs["snaps"][0])
+        try:
+            post_flat = c14prov.flat_of_document(j, obs["snaps"][0])
+        except (KeyError, TypeError, AttributeError):
+            post_flat = None
+        if post_flat is not None:
+            pv = c14prov.provenance_violations(pre_flat, post_flat, obs["_edges"], root=obs.get("_dir"))
+            if not pv:
+                res.count("multi:cli:provenance:every-name-located-where-a-reachable-function-wrote-it")
+            for cls in sorted({v["class"] for v in pv}):
+                res.count("multi:cli:provenance:" + cls)
+                res.violations.append({"signature": f"ir-mutated:other:cli:folded-name-located-{cls}", "case": case,
+                                       "names": [v for v in pv if v["class"] == cls][:6]})
     sj = strip_locations(j)
     if sj == strip_locations(before):
         res.count("multi:cli:-o-ir-equals-pre-results-ir")
@@ -939,6 +1109,7 @@ def judge_cli(res, case, obs, cli):
 # ------------------------------------------------------------------ the stage
 
 def run_stage(res, rng, tier, model):
+    from props import c14hist
     n_random = 70 if tier == "quick" else 700
     n_cli = 10 if tier == "quick" else 60
     want = all_cells()
@@ -965,10 +1136,23 @@ def run_stage(res, rng, tier, model):
                 break
         realised = set()
         observed = []
+        import time
+        t_start = time.time()
+        n_hist = 3 if tier == "quick" else 60
+        ex = ThreadPoolExecutor(max_workers=6)
+        cli_f, hist_f = {}, {}
         for i, (label, spec) in enumerate(projects):
             res.evaluations += 1
             d = tmp / f"p{i}"
+            spec["files"] = c14hist.with_second_target(spec["files"])
+            spec["history"] = i < len(CURATED) or i % 3 == 0 or tier != "quick"      # (cost: three more analyses)
             write_project(d, spec["files"])
+            # the sub-process observations (CLI, histories in fresh interpreters) of a sample run while the in-process ones do
+            if i < len(CURATED) + n_cli:
+                cli_f[i] = ex.submit(run_cli, d, spec)
+            if i < len(CURATED) + n_hist:
+                hist_f[i] = c14hist.submit(ex, d, spec, "main" if i % 4 == 3 else "library", hashseed=0,
+                                           post=(tier != "quick" or i % 3 == 0))
             obs = observe(d, spec)
             case = {"label": label, "files": spec["files"], "follow_imports": spec["level"],
                     "exclude_import": spec["excluded_imports"], "exclude": spec["excluded_names"]}
@@ -987,8 +1171,11 @@ def run_stage(res, rng, tier, model):
                 res.count("multi:cell:" + ":".join(c))
             res.count(f"multi:config:follow-imports={spec['level']}" + (":exclude-import" if spec["excluded_imports"] else ""))
             res.count(f"multi:followed-imports:{len(obs['snaps'][0]['imports'])}")
+            obs["_dir"] = str(d)
             observed.append((i, d, case, spec, obs, why))
+        t_obs = time.time()
         outs = model.batch([("results_project", model_request(obs["snaps"][0], obs["world"])) for _, _, _, _, obs, _ in observed])
+        t_model = time.time()
         for (i, d, case, spec, obs, why), mo in zip(observed, outs):
             if why:
                 mo = {"__error__": "outside fragment: " + why}
@@ -996,16 +1183,26 @@ def run_stage(res, rng, tier, model):
                 n0 = len(res.disagreements)
                 judge_project(res, case, spec, obs, mo)
                 del res.disagreements[n0:]
+                judge_inprocess_history(res, case, obs)
                 continue
+            judge_inprocess_history(res, case, obs)
             if judge_project(res, case, spec, obs, mo):
                 res.nontrivial.add(common.digest(spec["files"]))
             res.sample({"label": case["label"], "files": sorted(spec["files"]), "cells": spec["cells"][:6]}, cap=6)
         # ---- the CLI on a sample (curated ones always)
-        picks = observed[:len(CURATED)] + observed[len(CURATED):][:n_cli]
-        with ThreadPoolExecutor(max_workers=8) as ex:
-            clis = list(ex.map(lambda t: run_cli(t[1], t[3]), picks))
-        for (i, d, case, spec, obs, why), cli in zip(picks, clis):
-            judge_cli(res, case, obs, cli)
+        t_judge = time.time()
+        for (i, d, case, spec, obs, why) in observed:
+            if i in cli_f:
+                judge_cli(res, case, obs, cli_f[i].result())
+        t_cli = time.time()
+        # ---- histories in really fresh interpreters (props/c14hist.py), on a sample (curated ones always)
+        for (i, d, case, spec, obs, why) in observed:
+            if i in hist_f:
+                c14hist.collect(res, case, hist_f[i])
+        ex.shutdown(wait=True)
+        res.extra["multi_timing_info_only"] = {"observe": round(t_obs - t_start, 1), "model": round(t_model - t_obs, 1),
+                                               "judge": round(t_judge - t_model, 1), "cli": round(t_cli - t_judge, 1),
+                                               "histories": round(time.time() - t_cli, 1), "projects": len(projects)}
         missing = [c for c in all_cells() if c not in realised]
         res.extra["multi_cells_realised"] = len(realised)
         res.extra["multi_cells_missing"] = [":".join(c) for c in missing][:20]
